@@ -3,3 +3,5 @@ import TT.Tree
 import TT.Label
 import TT.Generated.Consts
 import TT.Spec.Label
+import TT.Nav
+import TT.Spec.Nav
